@@ -2,6 +2,7 @@
 //! probe sinks, replaying environment scripts produced by the Lean driver, and records every boundary event in
 //! the text protocol documented in `lean/CallbagModel/Script.lean`.
 #![allow(dead_code, clippy::type_complexity)]
+mod ivl;
 mod sched;
 mod seq;
 
@@ -12,6 +13,7 @@ fn main() {
         Some("replay") => seq::replay_stdin(),
         Some("sched-all") => sched::sched_all(args.get(2).and_then(|s| s.parse().ok()).unwrap_or(usize::MAX)),
         Some("sched-run") => sched::sched_run(),
+        Some("interval") => ivl::replay_stdin(),
         _ => {
             eprintln!("usage: cbharness replay   (stdin: `inst | script [| ...]`, stdout: `inst | script | recorded trace`)");
             std::process::exit(2);
